@@ -219,7 +219,14 @@ impl RunAndCompileInputData {
             )
         })?;
 
-        build_symbol_table_mut(symbol_table, &res);
+        // Add source locations for the subtrees of the program, but never let one
+        // replace a function's entry: when a function's code is a single atom its
+        // hash is also the hash of that atom wherever it occurs.
+        let mut locations = HashMap::new();
+        build_symbol_table_mut(&mut locations, &res);
+        for (hash, location) in locations {
+            symbol_table.entry(hash).or_insert(location);
+        }
 
         Ok(res)
     }
